@@ -219,13 +219,16 @@ CLAIMED = {
          "shrinkPerm_holds); Python == on types is an equivalence relation on well-formed types (eqv_equivalence); typing.Union[...] has "
          "exactly the members of its arguments (mkUnion_members, mkUnion_perm, mkUnion_dup); required / optional keys of a merged TypedDict "
          "do not depend on order or multiplicity (reqKeys_perm, optKeys_perm, reqKeys_dup); batch / connection / process splits disappear "
-         "through C09's adds_commute and stale rows through C10. The property itself is checked directly: `stub` is run in fresh "
-         "interpreter processes with different PYTHONHASHSEED values on stores built from permutations, duplications and batch splits "
-         "of trace pools, k in {0,3}, with and without rewriting, and the ast-canonicalised outputs must coincide."),
+         "through C09's adds_commute and stale rows through C10; past the merge, RewriteLargeUnion on a union of classes gives the same class "
+         "for every permutation of the members (large_union_order_independent) and the text of a module stub is a function of the multiset "
+         "of its blocks (module_render_order_independent, tied to ModuleStub.render by corr.C14.moduleRender). The property itself is checked "
+         "directly: `stub` is run in fresh interpreter processes with different PYTHONHASHSEED values on stores built from permutations, "
+         "duplications, batch splits, re-dated rows and duplicate-heavy histories queried with --limit, k in {0,3}, with and without "
+         "rewriting, and the ast-canonicalised outputs must coincide."),
    ref="DESIGN.md section 4 C14",
-   note=("partial: proved up to and including the merge; that the rewriters and the renderer map == types to the same text up to member order is "
-         "observed by the cross-process comparison, not proved. Observation: at library level build_module_stubs_from_traces is order-dependent "
-         "when two generated TypedDict classes collide by name (C11 finding); through the CLI the store returns rows GROUP BY-sorted, which masks it"),
+   note=("partial: proved up to and including the merge, for the large-union rewriter on class unions and for the block order of the module stub; "
+         "that the other rewriters and the annotation renderer map == types to the same text up to member order is observed by the cross-process "
+         "comparison, not proved. Two genuine order dependences found by this check were fixed in /repo (6093805, 9114e8b)"),
    technique="Lean 4 proof (equivalence-relation lemmas for type equality, functional induction over shrink under set-equality of arguments) + cross-process differential runs of the real CLI"),
  "C15": dict(
    text=("`apply` is libcst's ApplyTypeAnnotationsVisitor driven by MonkeyType; what is MonkeyType's own has Lean 4 theorems: the import remover "
